@@ -213,7 +213,7 @@ def delegate_forward(ctx: Ctx, fis: Iterable[FunctionInfo], rule: str = "E7.dele
 # ----------------------------------------------------------------------------- pair rule
 def pair_calls(ctx: Ctx, fi: FunctionInfo, pred_a: Callable[[FunctionInfo], bool], pred_b: Callable[[FunctionInfo], bool],
                rule: str, ignore: Set[str] = frozenset(), family: Optional[Dict[str, Set[str]]] = None,
-               require_both: bool = True) -> Tuple[int, int]:
+               require_both: bool = True, only: Optional[Set[str]] = None) -> Tuple[int, int]:
     """Two call families in one function (e.g. data path / grid path) must bind every shared option name to the
     same expression. Returns (#a calls, #b calls)."""
     A: List[Tuple[ast.Call, FunctionInfo, Dict[str, ast.expr]]] = []
@@ -241,6 +241,8 @@ def pair_calls(ctx: Ctx, fi: FunctionInfo, pred_a: Callable[[FunctionInfo], bool
                                f"{fi.qualname} pairs tensor operation {ga.name} with grid operation {gb.name}; "
                                f"expected one of {sorted(allowed) if allowed else '∅'}", cb)
             shared = (set(ga.params) & set(gb.params)) - {"self", "cls"} - set(ignore)
+            if only is not None:
+                shared &= set(only)
             for X in sorted(shared):
                 inst = f"{fi.key}:{ga.name}/{gb.name}:{X}"
                 ea, eb = ba.get(X), bb.get(X)
@@ -257,7 +259,7 @@ def pair_calls(ctx: Ctx, fi: FunctionInfo, pred_a: Callable[[FunctionInfo], bool
                                f"{fi.qualname}: option '{X}' is passed to {(ga if eb is None else gb).name} but not to {which.name}; "
                                f"data and grid would be computed with different settings", cb if eb is None else ca)
                     continue
-                same = ast.unparse(ea) == ast.unparse(eb)
+                same = ast.unparse(ea) == ast.unparse(eb) or (names_in(ea) == names_in(eb) and bool(names_in(ea)))
                 ctx.ob(rule, inst, same, {"option": X, "value": ast.unparse(ea)[:60]})
                 if not same:
                     ctx.report(rule, fi, f"option={X} a={ast.unparse(ea)[:30]} b={ast.unparse(eb)[:30]}",
